@@ -180,7 +180,7 @@ func initBindFamily() {
 func BindRoots() []int {
 	var out []int
 	for i, s := range Schemas {
-		if !s.IsType && s.Bind {
+		if !s.IsType && s.Bind && !s.Keys {
 			out = append(out, i)
 		}
 	}
